@@ -55,6 +55,23 @@ def addk(x, y=0, k=0):
     return x + 2 * y + 3 * k
 
 
+def mktuple(x):
+    """elements that are tuples (of length 1..3)"""
+    return (x, x + 1, x + 2)[:x]
+
+
+def accn(st, x):
+    return (st or 0) + 10 * x
+
+
+def wrap(x):
+    return (x,)
+
+
+def none_on_2(x):
+    return None if x == 2 else x
+
+
 def mklist(x):
     """elements that are lists themselves (of length 1..3)"""
     return [x, x + 1, x + 2][:x]
@@ -114,11 +131,20 @@ PROGS = {
     "gather.scatter": lambda s: _again(s.map(inc).gather()).map(times10),
     "gather.scatter.acc": lambda s: _again(s.accumulate(add).gather()).map(inc),
     # elements that are lists (PRE: made from the emitted ints in front of scatter)
+    "tuple:len": lambda s: s.map(llen),
+    "tuple:id": lambda s: s,
+    # None as a start value / as a result, returns_state together with with_state
+    "acc.none": lambda s: s.accumulate(accn, start=None),
+    "accrsws": lambda s: s.accumulate(accrs, start=0, returns_state=True, with_state=True),
+    "map.none": lambda s: s.map(none_on_2),
+    "map.none.map": lambda s: s.map(none_on_2).map(wrap),
     "list:len": lambda s: s.map(llen),
     "list:id": lambda s: s,
     "list:partition": lambda s: s.partition(2),
 }
-PRE = {"list:len": mklist, "list:id": mklist, "list:partition": mklist}
+PRE = {"list:len": mklist, "list:id": mklist, "list:partition": mklist, "tuple:len": mktuple, "tuple:id": mktuple}
+# programs whose emit must cover the (slow, asynchronous) consumer behind gather: nothing in between holds elements back
+ASYNC_SINK = ("map", "map.map", "acc0", "pair.starmap", "map.none")
 PROGS2 = {
     "zip": lambda a, b: a.zip(b),
     "zip.map": lambda a, b: a.zip(b).map(tsum),
@@ -298,7 +324,7 @@ class Dask(Scenario):
             finally:
                 DASK = False
             self.add_producer("p", self.src, list(range(1, p["n"] + 1)), mode="await", metadata=md)
-        out.gather().sink(self.make_sink_fn("sync", "S"))
+        out.gather().sink(self.make_sink_fn("future" if p.get("slow") else "sync", "S"))
 
     def finish(self):
         import streamz.core as sc
@@ -313,6 +339,17 @@ class Dask(Scenario):
         if r:
             return ("task(%d)" % r[0].id, lambda: self.client.complete(r[0]))
         return super().closing_events()
+
+    def on_emit_done(self, producer, idx, x):
+        if not self.params.get("slow"):
+            return
+        # the consumer behind gather is asynchronous and nothing in this program holds elements back: when the emit
+        # completes, the consumer has finished with what this element produced
+        ins = [e[3] for e in self.log if e[0] == "in"]
+        outs = [e[3] for e in self.log if e[0] == "out"]
+        if len(ins) < idx + 1 or len(outs) < len(ins):
+            self.violations.append(Violation("emit-before-consumer", self.site(), "behind-gather",
+                                             dict(element=x, delivered=ins, finished=outs)))
 
     def check_step(self):
         return self._check(False)
@@ -403,9 +440,10 @@ class Dask(Scenario):
 
 
 def factory(key):
-    prog, two, n = key
+    prog, two, n = key[:3]
+    slow = len(key) > 3 and key[3] == "slow"
     precompute_local(prog, two, n)
-    return lambda: Dask(prog=prog, two=two, n=n)
+    return lambda: Dask(prog=prog, two=two, n=n, slow=slow)
 
 
 def plan(ctx):
@@ -420,6 +458,8 @@ def plan(ctx):
         jobs.append(((prog, True, 2), 1))
         if T:
             jobs.append(((prog, True, 2), 2))
+    for prog in ASYNC_SINK:
+        jobs.append(((prog, False, 2, "slow"), 1))
     for prog in PROGS3:
         jobs.append(((prog, 3, 1), 2))
         if T:
